@@ -367,7 +367,11 @@ class Engine:
                 return a
         if self.access_hook:
             self.access_hook(st, kind, a, n, "sym")
-        st.events.append((kind, a, n))
+        if self._mentions_app_addr(a):
+            # application object + symbolic offset: not a sandbox/raw-memory access
+            st.events.append((kind + "@app", a, n))
+        else:
+            st.events.append((kind, a, n))
         return a
 
     def in_global(self, av, n):
